@@ -244,16 +244,26 @@ def run_snapshot(arrivals):
     return pp_.seen
 
 
-def make_asset(key, upload, payload):
+def asset_parts(a):
+    """[key, upload, payload] (the file is the one the key spells) or [key, fileid, upload, payload]"""
+    if len(a) == 3:
+        return a[0], a[0].lstrip("/"), a[1], a[2]
+    return tuple(a)
+
+
+def payload_checksum(payload):
+    return hashlib.blake2b(f"asset-{payload}".encode(), digest_size=32).hexdigest()
+
+
+def make_asset(key, fileid, upload, payload):
     data = f"asset-{payload}".encode()
-    return StaticAsset(key, FileId(key.lstrip("/")), Path("/nonexistent-verif") / key.lstrip("/"), upload, [], None,
-                       hashlib.blake2b(data, digest_size=32).hexdigest(), data)
+    return StaticAsset(key, FileId(fileid), Path("/nonexistent-verif") / fileid, upload, [], None, payload_checksum(payload), data)
 
 
 def asset_set(assets):
     s = set()
-    for key, upload, payload in assets:
-        s.add(make_asset(key, upload, payload))
+    for a in assets:
+        s.add(make_asset(*asset_parts(a)))
     return s
 
 
@@ -461,6 +471,14 @@ def gen_project(rng, idx):
             files[f"source/includes/extracts-{nm}.yaml"] = f"ref: {nm}-x\ninherit:\n  file: extracts-base.yaml\n  ref: base-x\n...\n"
     for nm in "abc":
         files[f"source/images/{nm}.png"] = {"$b": f"\x89PNG\r\n\x1a\n{nm}"}
+    if rng.random() < 0.4:
+        # two different files that one page refers to under the same spelling: includes in two directories, each with a figure
+        # named relative to its own directory. What the page's document lists first must not follow string hashing.
+        for d in ("parta", "partb"):
+            files[f"source/{d}/inc.rst"] = f"Text of {d}.\n\n.. figure:: pic.png\n   :alt: {d}\n"
+            files[f"source/{d}/pic.png"] = {"$b": f"\x89PNG\r\n\x1a\n{d}"}
+        tgt = f"source/{rng.choice(names)}.txt"
+        files[tgt] += "\n.. include:: /parta/inc.rst\n\n.. include:: /partb/inc.rst\n"
     if rng.random() < 0.6:
         # facets at several directory levels: a page gets the facets of its own directory plus, for every category that
         # directory does not set, those of the directories above - in an order that must not depend on string hashing
@@ -794,7 +812,15 @@ class C05(core.PropertyCheck):
                 if k.lstrip("/") in seen:
                     continue
                 seen.add(k.lstrip("/"))
-                assets.append([k, rng.random() < 0.8, rng.randrange(3)])
+                assets.append([k, k.lstrip("/"), rng.random() < 0.8, len(assets)])
+            if rng.random() < 0.5:
+                # different files under ONE spelling: a path relative to the directory of the file that names it (two includes in two
+                # directories, each with `figure:: pic.png`). The set tells them apart by file id; the document must order them all the same.
+                k = rng.choice(["pic.png", "images/a.png", "é.png"])
+                for d in rng.sample(["parta", "partb", "z/deep", "0"], rng.randint(2, 3)):
+                    if f"{d}/{k}" not in seen:
+                        seen.add(f"{d}/{k}")
+                        assets.append([k, f"{d}/{k}", rng.random() < 0.9, len(assets)])
             events = [[rng.choice(KEYS[:8]), [rng.randrange(1000) for _ in range(rng.choice([0, 1, 1, 2, 3]))]] for _ in range(rng.randint(0, 7))]
             a2 = list(assets)
             rng.shuffle(a2)
@@ -874,7 +900,7 @@ class C05(core.PropertyCheck):
         if k == "snapshot":
             return {"a": run_snapshot(case["arrivals"]), "b": run_snapshot(case["perm"])}
         if k == "manifest":
-            enum1 = [[a.key, a.upload, int(a.data.decode().split("-")[1])] for a in asset_set(case["assets"])]
+            enum1 = [[a.key, a.fileid.as_posix(), a.upload, int(a.data.decode().split("-")[1])] for a in asset_set(case["assets"])]
             return {"a": run_manifest(case["assets"], case["events"]), "b": run_manifest(case["assets2"], case["events2"]), "enum": enum1}
         if k == "msg":
             return {"fwd": run_missing(case["directive"], case["given"], False), "rev": run_missing(case["directive"], case["given"], True)}
@@ -906,7 +932,7 @@ class C05(core.PropertyCheck):
         if k == "snapshot":
             return {"op": "c05.snapshot", "arrivals": [[key.split("/"), v] for key, v in case["arrivals"]]}
         if k == "manifest":
-            enum1 = [[a.key, a.upload, int(a.data.decode().split("-")[1])] for a in asset_set(case["assets"])]
+            enum1 = [[a.key, a.fileid.as_posix(), a.upload, int(a.data.decode().split("-")[1])] for a in asset_set(case["assets"])]
             return {"op": "c05.manifest", "assets": enum1, "events": [[key.split("/"), ids] for key, ids in case["events"]]}
         if k == "msg":
             req = specparser.Spec.get().directive[case["directive"]].required_options
@@ -925,8 +951,8 @@ class C05(core.PropertyCheck):
             if want != impl["a"]:
                 return f"snapshot: model {want} impl {impl['a']}"
         elif k == "manifest":
-            want_a = [a[0] for a in model["assets"]]
-            got_a = [a[0] for a in impl["a"]["assets"]]
+            want_a = [[a[0], payload_checksum(a[1])] for a in model["assets"]]
+            got_a = impl["a"]["assets"]
             if want_a != got_a:
                 return f"asset order: model {want_a} impl {got_a}"
             want_d = [["/".join(key), ids] for key, ids in model["diagnostics"]]
@@ -998,8 +1024,14 @@ class C05(core.PropertyCheck):
                 tags.append("shash:set>=2")
         if case["kind"] == "snapshot" and len(case["arrivals"]) != len(case["perm"]):
             tags.append("snapshot:key-delivered-twice")
-        if case["kind"] == "manifest" and impl["enum"] != [a for a in case["assets"]]:
+        if case["kind"] == "manifest" and impl["enum"] != [list(asset_parts(a)) for a in case["assets"]]:
             tags.append("manifest:set-enumeration!=insertion")
+        if case["kind"] == "manifest":
+            keys = [asset_parts(a)[0] for a in case["assets"] if asset_parts(a)[2]]
+            if len(set(keys)) < len(keys):
+                tags.append("manifest:two-files-under-one-spelling")
+                if model and model.get("assets_key_only") != model.get("assets"):
+                    tags.append("manifest:key-only-sort-would-differ")
         return tags
 
     def sample(self, case, impl):
